@@ -270,3 +270,32 @@ def objective_models(y, n, k, W, H, grid, cnt, area, sky, out):
     out[4] = (k - 1) * A + ma
     out[5] = (k - 1) * A + sky[k - 1]
     out[6] = (k - 1) * A + ms
+
+
+def objective_values_exact(rows, n_items, W, H):
+    """
+    The seven documented objective values with Python ints, any size.
+
+    Skyline areas by a sweep over the x break points of each bin (no grid),
+    so this also works for bins of 10^12 units.
+    """
+    rows = [[int(v) for v in r] for r in rows]
+    k = max(r[1] for r in rows)
+    A = W * H
+    cnt = [0] * k
+    area = [0] * k
+    sky = [0] * k
+    for b in range(1, k + 1):
+        its = [r for r in rows if r[1] == b]
+        cnt[b - 1] = len(its)
+        area[b - 1] = sum((r[4] - r[2]) * (r[5] - r[3]) for r in its)
+        xs = sorted({0, W} | {r[2] for r in its} | {r[4] for r in its})
+        s = 0
+        for x0, x1 in zip(xs, xs[1:]):
+            top = max([r[5] for r in its if r[2] <= x0 and x1 <= r[4]]
+                      or [0])
+            s += (x1 - x0) * top
+        sky[b - 1] = s
+    return [k, (k - 1) * n_items + cnt[k - 1], (k - 1) * n_items + min(cnt),
+            (k - 1) * A + area[k - 1], (k - 1) * A + min(area),
+            (k - 1) * A + sky[k - 1], (k - 1) * A + min(sky)]
